@@ -159,6 +159,15 @@ impl Pool {
             .map_err(|e| Error::emit("Creating table schema_version", &e))?;
 
         loop {
+            /* A step and the record that it has been taken are committed together.  If the
+             * process died between the two, the database would claim to be older than it is, the
+             * step would be taken a second time on the next start, fail, and the database would
+             * never open again.
+             */
+            let tx = self
+                .conn
+                .unchecked_transaction()
+                .map_err(|e| Error::emit("Starting schema upgrade", &e))?;
             let upgraded_to_version = match self
                 .conn
                 .query_row(
@@ -187,6 +196,8 @@ impl Pool {
                     rusqlite::params![DB_SCHEMA_KEY, upgraded_to_version],
                 )
                 .map_err(|e| Error::emit("Creating updating schema version", &e))?;
+            tx.commit()
+                .map_err(|e| Error::emit("Committing schema upgrade", &e))?;
         }
         Ok(self)
     }
